@@ -44,6 +44,9 @@ struct Shared {
     added_on_computed: Cell<u64>,
     e_has_run: Cell<bool>,
     inner: RefCell<Vec<Option<Incr<i64>>>>,
+    /// an observer the observability callback reads (must fail: we are inside stabilise)
+    probe: RefCell<Option<std::rc::Weak<Observer<i64>>>>,
+    probe_reads: Cell<u64>,
 }
 
 pub struct Outcome {
@@ -151,6 +154,16 @@ fn inner(seed: u64, actions: &mut Vec<String>, stats: &mut (bool, u64, u64)) -> 
             let sh = sh.clone();
             move |b| {
                 sh.obs_changes.borrow_mut().push(b);
+                if let Some(o) = sh.probe.borrow().as_ref().and_then(|w| w.upgrade()) {
+                    sh.probe_reads.set(sh.probe_reads.get() + 1);
+                    let r = o.try_get_value();
+                    if r != Err(ObserverError::CurrentlyStabilising) {
+                        sh.problems.borrow_mut().push(format!(
+                            "[C07] an observer read from the expert node's observability callback (which runs inside stabilise) returned {:?} instead of CurrentlyStabilising",
+                            r
+                        ));
+                    }
+                }
                 if b {
                     // after re-observation every callback has to fire again
                     for s in sh.shadow.borrow_mut().iter_mut() {
@@ -261,7 +274,8 @@ fn inner(seed: u64, actions: &mut Vec<String>, stats: &mut (bool, u64, u64)) -> 
     let outer = st.var(ms[0].clone());
     let joined = join(&outer.watch());
     let mut join_target = 3usize;
-    let join_obs = joined.observe();
+    let join_obs = Rc::new(joined.observe());
+    *sh.probe.borrow_mut() = Some(Rc::downgrade(&join_obs));
 
     let mut e_obs: Option<Observer<i64>> = Some(e.watch().observe());
     let mut above_obs: Option<Observer<i64>> = if rng.chance(1, 2) { Some(above.observe()) } else { None };
@@ -442,7 +456,7 @@ pub fn run(seed: u64, shard: u64, count: u64) -> J {
         if let Some(m) = o.violation {
             if violations.len() < 10 {
                 violations.push(J::obj(vec![
-                    ("property", J::s("C14")),
+                    ("property", J::s(if m.starts_with("[C07]") { "C07" } else { "C14" })),
                     ("message", J::s(format!("{m}; history: {:?}", o.actions))),
                     ("argv", J::Arr(vec![J::s("expert-one"), J::s(hseed.to_string())])),
                 ]));
